@@ -362,7 +362,7 @@ mutual
           if h.isArr then rtErr t .arrayDirect
           else
             let c ← locIsConst h.loc
-            bindParams f t ps es vs ({ name := pn, ty := pty, isConst := c, val := .none, ref := some h.loc } :: acc)
+            bindParams f t ps es vs ({ name := pn, ty := h.ty, isConst := c, val := .none, ref := some h.loc } :: acc)
         | _ => rtErr t .byrefArg
       else
         bindParams f t ps es vs ({ name := pn, ty := pty, val := v' } :: acc)
@@ -751,7 +751,7 @@ mutual
           pure .none
       | .typeEnum t name vals =>
         tick t
-        if ← isIdentifierType name false then rtErr t .redeclared
+        if ← isIdentifierType name then rtErr t .redeclared
         else
           modifyCur fun a => { a with enums := a.enums ++ [(name.val, vals)] }
           pure .none
@@ -759,13 +759,13 @@ mutual
         tick t
         let ty ← getType target
         if ty == .none then rtErr t .notDefined
-        else if ← isIdentifierType name false then rtErr t .redeclared
+        else if ← isIdentifierType name then rtErr t .redeclared
         else
           modifyCur fun a => { a with ptrs := a.ptrs ++ [(name.val, ty)] }
           pure .none
       | .typeRec t name body =>
         tick t
-        if ← isIdentifierType name false then rtErr t .redeclared
+        if ← isIdentifierType name then rtErr t .redeclared
         else
           modifyCur fun a => { a with comps := a.comps ++ [(name.val, body)] }
           pure .none
